@@ -103,6 +103,15 @@ func (r *Resolver) TL2(w []byte, t schemagen.TypeExpr, v *Value, opt bool) ([]by
 			}
 		}
 	}
+	if all := r.byType[c.ResultType]; len(all) > 1 && !c.IsFunc && TL2Bad != nil {
+		site := TL2Bad.Seen
+		TL2Bad.Seen++
+		if site == TL2Bad.Site { // an object that names the variant len(all): one past the last one
+			TL2Bad.Applied = true
+			bad := tl2Size([]byte{1}, len(all))
+			return append(tl2Size(w, len(bad)), bad...), nil
+		}
+	}
 	body, err := r.tl2Body(c, t.Args, v, variant)
 	if err != nil {
 		return w, err
@@ -285,3 +294,15 @@ func (r *Resolver) TL2Top(c *schemagen.Comb, v *Value) ([]byte, error) {
 	}
 	return r.TL2(nil, schemagen.TypeExpr{Kind: "ref", Name: c.Name, Bare: true}, v, false)
 }
+
+// BadVariant asks the writer for an invalid encoding: the Site-th union-typed object it writes (counted in Seen) names a
+// variant index equal to the number of variants. Site -1 only counts. Not for concurrent use.
+type BadVariant struct {
+	Site, Seen int
+	Applied    bool
+}
+
+var TL2Bad *BadVariant
+
+// IsUnionMember: the combinator is one of several constructors of its type.
+func (r *Resolver) IsUnionMember(c *schemagen.Comb) bool { return len(r.byType[c.ResultType]) > 1 }
